@@ -318,6 +318,22 @@ def run(ctx):
              "specification", srcs, got, want, "chains")
     for s, g in list(zip(srcs, got))[:3]:
         ctx.sample({"text": s, "convert": dec(g)})
+    # the ENTRY POINTS apply the conversion: compile(src) is lex + exec + generate of convert(src), also for sources that are
+    # pure ASCII apart from their own definitions
+    ascii_defs = ["~{kick}={n36,}~{snare}={n38,} l8 kick snare kick kick snare", "~{Do}={c}~{Re}={d}~{Mi}={e} o5 l4 Do Re Mi Do",
+                  "~{x}={c4} x x ~{x}={d8} x", "l4 ~{zz}={e} c zz d"]
+    pick = [i for i in range(len(srcs)) if want[i] is not None and got[i] is not None and "\x00" not in srcs[i]][: (250 if quick else 8000)]
+    esrc = [srcs[i] for i in pick] + ascii_defs
+    conv = [dec(got[i]) for i in pick] + [dec(g) for g in R.convert_pairs(ascii_defs, "chains")]
+    ga = ctx.impl(["compile\t%s\t0" % vlib.enc_text(x) for x in esrc], stall=15)
+    gb = ctx.impl(["compile_lex\t%s" % vlib.enc_text(x) for x in conv], stall=15)
+    for x, a, b in zip(esrc, ga, gb):
+        ctx.count("entry_points_convert", x if "~{" in x else None)
+        if bad_result(a) or bad_result(b):
+            continue
+        if a.split("\t")[0] != b.split("\t")[0]:
+            ctx.oracle_fail("compile(src) differs from the pipeline run on convert(src): the entry point does not apply the conversion",
+                            "compile\t%s\t0" % vlib.enc_text(x), a[:300], b[:300], input_text=x)
 
     # ---- malformed definitions, unterminated strings/comments, junk, random Unicode: correspondence + totality ----
     n = 1500 if quick else 60000
